@@ -76,6 +76,7 @@ func runC12(c *Ctx) {
 	c.r127(pk)
 	c.r128("R12.8")
 	c.r129(pk)
+	c.r1210(pk)
 }
 
 // R12.1
@@ -870,4 +871,81 @@ func (c *Ctx) r129(pk *packages.Package) {
 		})
 	}
 	c.R.Floor(rule, "goroutines that release a wait group", n, 2)
+}
+
+// R12.10: what a Read returned is consumed before its error is acted on.
+func (c *Ctx) r1210(pk *packages.Package) {
+	const rule = "R12.10"
+	c.R.Rule(rule, "io.Reader: `Callers should always process the n > 0 bytes returned before considering the error err` — a reader may deliver its last bytes together with io.EOF (an HTTP body of known length, a zip entry, iotest.DataErrReader). For every call `n, err := r.Read(buf)` of an io.Reader's Read in the root package, no path leads from the call to a return or a loop exit without passing a statement that uses n: a copy loop that tested the error first dropped the final piece of the stream, and the minifier behind M.Writer saw a truncated document")
+	info := pk.TypesInfo
+	n := 0
+	for _, fd := range load.FuncDecls(pk) {
+		if fd.Body == nil {
+			continue
+		}
+		var g *flow.Graph
+		ast.Inspect(fd.Body, func(z ast.Node) bool {
+			as, ok := z.(*ast.AssignStmt)
+			if !ok || len(as.Lhs) != 2 || len(as.Rhs) != 1 {
+				return true
+			}
+			ce, ok := ast.Unparen(as.Rhs[0]).(*ast.CallExpr)
+			if !ok {
+				return true
+			}
+			sel, ok := ce.Fun.(*ast.SelectorExpr)
+			if !ok || sel.Sel.Name != "Read" || len(ce.Args) != 1 {
+				return true
+			}
+			if sig, ok := info.TypeOf(ce.Fun).(*types.Signature); !ok || sig.Results().Len() != 2 || !isIntType(sig.Results().At(0).Type()) {
+				return true
+			}
+			nid, ok := as.Lhs[0].(*ast.Ident)
+			if !ok || nid.Name == "_" {
+				n++
+				c.R.Bad(rule, fmt.Sprintf("minify.%s/Read#%d: the byte count is used before the error decides", load.FuncName(fd), n), c.pos(as), "the number of bytes a Read returned is discarded")
+				return true
+			}
+			nobj := info.Defs[nid]
+			if nobj == nil {
+				nobj = info.Uses[nid]
+			}
+			n++
+			if g == nil {
+				g = c.graph(pk, fd)
+			}
+			y := g.NodeOf(as)
+			if y == nil {
+				c.R.Unres(rule, fmt.Sprintf("minify.%s/Read#%d", load.FuncName(fd), n), c.pos(as), "call not in the flow graph")
+				return true
+			}
+			usesN := func(q *flow.Node) bool {
+				if q == y {
+					return false
+				}
+				a := q.Ast()
+				if a == nil {
+					return false
+				}
+				hit := false
+				ast.Inspect(a, func(w ast.Node) bool {
+					if id, ok := w.(*ast.Ident); ok && info.Uses[id] == nobj {
+						hit = true
+					}
+					return !hit
+				})
+				return hit
+			}
+			p := g.Path(flow.Search{From: []*flow.Node{y}, Goal: func(q *flow.Node) bool {
+				if q.Kind == flow.KExit {
+					return true
+				}
+				return retStmt(q) != nil
+			}, Avoid: usesN})
+			c.R.Check(p == nil, rule, fmt.Sprintf("minify.%s/Read#%d: the byte count is used before the error decides", load.FuncName(fd), n), c.pos(as), "every path to a return passes a use of the count",
+				"the function can return after a Read without having looked at the bytes it delivered: data that arrives together with io.EOF is dropped — "+pathStr(c, g, p))
+			return true
+		})
+	}
+	c.R.Exists(rule, "minify/calls of a reader's Read", "-", fmt.Sprintf("%d found", n))
 }
